@@ -407,15 +407,18 @@ func VerifHostLevel(r *NetworkRule) bool {
 // VerifHostRule: a hosts-file rule with nNames names of one symbolic letter pair and an IPv4 or IPv6 address.
 func VerifHostRule(p string, nNames int) *HostRule {
 	h := &HostRule{RuleText: p, FilterListID: 1}
-	v6 := verifBool(p + ".v6")
-	if v6 {
-		h.IP = netip.IPv6Loopback()
-	} else {
-		h.IP = netip.AddrFrom4([4]byte{127, 0, 0, 1})
-	}
+	// address family: IPv4, IPv6, or an IPv4-mapped IPv6 address (which is an IPv6 address)
+	kind := verifChoice(p+".ipkind", 3)
 	text := "127.0.0.1"
-	if v6 {
+	switch kind {
+	case 0:
+		h.IP = netip.AddrFrom4([4]byte{127, 0, 0, 1})
+	case 1:
+		h.IP = netip.IPv6Loopback()
 		text = "::1"
+	default:
+		h.IP = netip.AddrFrom16([16]byte{0, 0, 0, 0, 0, 0, 0, 0, 0, 0, 0xff, 0xff, 1, 2, 3, 4})
+		text = "::ffff:1.2.3.4"
 	}
 	for i := 0; i < nNames; i++ {
 		n := verifString(vn(p+".name", i, ""), 2, "zq")
